@@ -23,19 +23,32 @@ class Interrupted(Exception):
     pass
 
 
-class Callback:
-    """Raises a fresh Interrupted on the invocation ordinals in `at` (global count over all tasks)."""
+def _mk(name, base):
+    return type(name, (base,), {})
 
-    def __init__(self, at):
+
+# the caller's interrupt may be ANY exception class: classes that library code (or a pool wrapper) might trap for its own reasons
+EXC = {"Interrupted": Interrupted}
+for _b in (RuntimeError, ValueError, KeyError, IndexError, TypeError, AttributeError, OSError, ZeroDivisionError, FloatingPointError, MemoryError,
+           LookupError, ArithmeticError, AssertionError, NotImplementedError, BufferError, multiprocessing.TimeoutError):
+    EXC["I" + _b.__name__] = _mk("I" + _b.__name__, _b)
+EXC_ALT = [n for n in EXC if n != "Interrupted"]
+
+
+class Callback:
+    """Raises a fresh exception of class `exc` on the invocation ordinals in `at` (global count over all tasks)."""
+
+    def __init__(self, at, exc="Interrupted"):
         self.at = set(at)
         self.calls = 0
         self.raised = []
+        self.cls = EXC[exc]
 
     def __call__(self):
         i = self.calls
         self.calls += 1
         if i in self.at:
-            e = Interrupted(i)
+            e = self.cls(i)
             self.raised.append(e)
             raise e
 
@@ -47,7 +60,9 @@ def describe(tier):
         "have been consulted exactly once per sub-cube; afterwards the SAME cube and aggregate objects, callback disarmed, must give bit-for-bit the result of a fresh "
         "evaluation. Pooled: for EVERY subset S of invocation ordinals and EVERY schedule within the preemption bound (scheduling point at every line/instruction of "
         "catii code in a worker), calculate raises one of the raised objects iff S is non-empty, the callback is consulted once per sub-cube, and the follow-up "
-        "evaluation on the same objects equals fresh. A state = a scheduling point reached; a transition = one scheduled step.",
+        "evaluation on the same objects equals fresh. The interrupt is an instance of a plain Exception subclass and, at every single invocation (serial: all harnesses; pooled: six harness/pool-size pairs), of a subclass of each of %d "
+        "standard exception classes that library or pool code might trap for its own reasons (RuntimeError, ValueError, KeyError, IndexError, TypeError, AttributeError, OSError, arithmetic errors, MemoryError, multiprocessing.TimeoutError ...). "
+        "A state = a scheduling point reached; a transition = one scheduled step." % len(EXC_ALT),
         "plan": {"serial": SERIAL, "pooled": [list(p) for p in POOLED[tier]]},
         "assumptions": [
             "interrupt classes derive from Exception: the stdlib worker loop only traps Exception, so a BaseException-only class would kill a worker thread inside the standard library",
@@ -66,17 +81,17 @@ def expected(h):
     return _expected[h]
 
 
-def serial_case(h, at):
+def serial_case(h, at, exc="Interrupted"):
     """Returns violation dict or None, and the number of callback calls."""
     k = harness.subcubes(h)
     cube, funcs = harness.make(h, parallel=False)
-    cb = Callback(at)
+    cb = Callback(at, exc)
     cube.check_interrupt = cb
     try:
         out = ("ok", cube.calculate(funcs))
     except Exception as e:  # noqa
         out = ("exc", e)
-    case = {"harness": h, "mode": "serial", "at": sorted(at)}
+    case = {"harness": h, "mode": "serial", "at": sorted(at), "exc": exc}
     if at and min(at) < k:
         if out[0] != "exc":
             return dict(case, kind="not-raised", detail="callback raised on invocation %d but calculate returned" % min(at))
@@ -102,15 +117,16 @@ def serial_case(h, at):
     return None
 
 
-def pooled_body(h, w, at):
+def pooled_body(h, w, at, exc="Interrupted"):
     def body():
         cube, funcs = harness.make(h, parallel=True, poolsize=w)
-        cb = Callback(at)
+        cb = Callback(at, exc)
         cube.check_interrupt = cb
         try:
             out = ("ok", harness.freeze(cube.calculate(funcs)))
         except Exception as e:  # noqa
             out = ("exc", e)
+        cb.pending_at_return = sched.background_pending()
         cube.check_interrupt = None
         # follow-up on the SAME objects: first pooled again (default schedule under a scheduler of its own, so that it does not
         # add branching to the exploration), then serial
@@ -144,6 +160,9 @@ def pooled_check(h, at):
             return {"kind": "harness-raised", "detail": repr(res[1])}
         out, cb, again = res[1]
         live = [i for i in at if i < k]
+        if getattr(cb, "pending_at_return", 0):
+            return {"kind": "not-stopped", "detail": "calculate %s while %d sub-cube task(s) were still queued on its pool: the evaluation has not stopped (the workers go on consulting the callback and "
+                    "writing results while the caller already handles the exception)" % ("raised" if out[0] == "exc" else "returned", cb.pending_at_return)}
         if live:
             if out[0] != "exc":
                 return {"kind": "not-raised", "detail": "callback raised on invocations %r but calculate returned" % (live,)}
@@ -168,12 +187,13 @@ def pooled_check(h, at):
 
 
 def run_pooled(args):
-    h, w, gran, bound, at = args
+    h, w, gran, bound, at = args[:5]
+    exc = args[5] if len(args) > 5 else "Interrupted"
     try:
         sched.patch_pools()
         sched.install(gran)
         stats = {}
-        body = pooled_body(h, w, at)
+        body = pooled_body(h, w, at, exc)
         v = sched.explore(body, pooled_check(h, at), bound, stats=stats)
         if v and v.get("kind") == "diverged":
             return {"error": "schedule replay diverged: %s" % v["detail"]}
@@ -182,7 +202,7 @@ def run_pooled(args):
             rb, ob = sched.execute(body, v["choices"])
             if ra.points != rb.points:
                 return {"error": "failing schedule of %s did not replay identically" % h}
-            v.update(harness=h, poolsize=w, granularity=gran, bound=bound, at=sorted(at), mode="pooled")
+            v.update(harness=h, poolsize=w, granularity=gran, bound=bound, at=sorted(at), mode="pooled", exc=exc)
         return {"stats": {"executions": stats.get("executions", 0), "points": stats.get("points", 0), "orders": stats.get("orders", set())}, "violation": v, "key": (h, w, gran, bound)}
     except Exception:
         import traceback
@@ -209,6 +229,13 @@ def main(tier, all_violations=False, t0=None):
             v = serial_case(h, at)
             if v and viol is None:
                 viol = v
+        # every other exception class, at every single invocation
+        for exc in EXC_ALT:
+            for i in range(k):
+                serial_cases += 1
+                v = serial_case(h, (i,), exc)
+                if v and viol is None:
+                    viol = v
         samples.append({"mode": "serial", "harness": h, "sub_cubes": k, "raise_at": "every index 0..%d, pairs, never" % (k - 1)})
     # pooled: every subset x every schedule
     tasks = []
@@ -221,6 +248,12 @@ def main(tier, all_violations=False, t0=None):
             subsets = [()] + [(i,) for i in range(k)] + [(0, k - 1), tuple(range(k))]
         for at in subsets:
             tasks.append((h, w, gran, bound, at))
+    # every other exception class in pooled mode: every single invocation, default schedule and schedules with one preemption on the small harnesses
+    for h, w, bound in (("c3", 2, 1), ("x3", 2, 1), ("c8", 2, 0), ("x8", 2, 0), ("x3", 1, 0), ("c3", 1, 0)):
+        k = harness.subcubes(h)
+        for exc in EXC_ALT:
+            for i in range(k):
+                tasks.append((h, w, "line", bound if exc == "IRuntimeError" else 0, (i,), exc))
     per = {}
     if viol is None:
         pool = multiprocessing.get_context("fork").Pool(min(core.NPROC, len(tasks)))
@@ -256,7 +289,7 @@ def main(tier, all_violations=False, t0=None):
         rec = {"property": ID, "site": "%s:%s:%s" % (viol.get("mode"), viol.get("harness"), viol.get("kind")), "detail": viol.get("detail", "")[:3000],
                "case": {k: viol.get(k) for k in ("harness", "mode", "at", "poolsize", "granularity", "bound", "choices", "kind")}}
         path = core.write_replay(ID, rec)
-        print("mode=%s harness=%s at=%s kind=%s" % (viol.get("mode"), viol.get("harness"), viol.get("at"), viol.get("kind")))
+        print("mode=%s harness=%s at=%s kind=%s exc=%s" % (viol.get("mode"), viol.get("harness"), viol.get("at"), viol.get("kind"), viol.get("exc")))
         print("detail=%s" % viol.get("detail", "")[:800])
         print("VIOLATION property=%s replay=%s" % (ID, path))
         code = 1
@@ -268,13 +301,13 @@ def main(tier, all_violations=False, t0=None):
 
 def replay(case, site=None):
     if case.get("mode") == "serial":
-        v = serial_case(case["harness"], tuple(case["at"]))
+        v = serial_case(case["harness"], tuple(case["at"]), case.get("exc") or "Interrupted")
         print(v)
         return v is not None
     sched.patch_pools()
     sched.install(case["granularity"])
     at = tuple(case["at"])
-    s, res = sched.execute(pooled_body(case["harness"], case["poolsize"], at), case["choices"])
+    s, res = sched.execute(pooled_body(case["harness"], case["poolsize"], at, case.get("exc") or "Interrupted"), case["choices"])
     v = pooled_check(case["harness"], at)(s, res)
     print(v)
     return v is not None
